@@ -1,4 +1,5 @@
 import TarpcModel.Driver.C13
+import TarpcModel.Driver.Cli
 /-
 `driver model`   : reads `script`/`op` lines on stdin, prints `script`/`op`/`obs` lines produced by
                    the Lean model (same grammar as the harness output).
@@ -10,6 +11,7 @@ open TarpcModel.Driver
 def familyOf (name : String) : Option Family :=
   match name with
   | "c13" => some c13
+  | "cli" => some cli
   | _ => none
 
 structure Cur where
